@@ -3,7 +3,7 @@
 From BT Require Import Base.Util Base.LE Base.Float Generated.Consts Model.RTree Model.BBIFile Model.BigWigWrite Model.BigWigWriteZ
   Proofs.RTreeCodec Proofs.FileRegions Proofs.BigWigFile Proofs.BigWigFileData Proofs.BigWigFileRoundTrip Proofs.ZoomBwLevels
   Spec.FormatDecode Proofs.C09Base Proofs.C09Data Proofs.C09Whole
-  Spec.Inflate Proofs.InflateFuel Proofs.InflateStored Proofs.InflateThms.
+  Spec.Inflate Proofs.InflateFuel Proofs.InflateStored Proofs.InflateHuffman Proofs.InflateThms.
 Local Open Scope N_scope.
 
 Check (inflate_never_fuel : forall input, inflate input <> Fuel /\ inflate input <> Panic).
@@ -20,6 +20,13 @@ Check (lz_copy_correct : forall len dist out,
   lz_copy 258 len dist out = lz_copy_spec (N.to_nat len) dist out).
 Check (length_codes_in_range : forall i s len s1, base_extra len_table E_CODE i s = Ok (len, s1) -> 3 <= len <= 258).
 Check (distance_codes_in_range : forall i s d s1, base_extra dist_table E_DCODE i s = Ok (d, s1) -> 1 <= d <= 32768).
+Check (huffman_tree_decodes_canonical_code : forall kind bad lens t, build kind bad lens = Ok t ->
+  forall sym l, nth_error lens sym = Some l -> l <> 0 ->
+  forall r rest, hwalk t (code_bits (N.to_nat l) (canonical_code lens sym) ++ r, rest) = Ok (N.of_nat sym, (r, rest))).
+Check (huffman_canonical_code_prefix_free : forall kind bad lens t, build kind bad lens = Ok t ->
+  forall s1 s2 l1 l2 tail, nth_error lens s1 = Some l1 -> nth_error lens s2 = Some l2 -> l1 <> 0 -> l2 <> 0 ->
+  code_bits (N.to_nat l1) (canonical_code lens s1) ++ tail = code_bits (N.to_nat l2) (canonical_code lens s2) ->
+  s1 = s2).
 Check (zlib_decode_stored : forall b, zlib_decode (zlib_store b) = Some b).
 Check (zlib_store_one_block : forall b, Nlen b < 65536 ->
   zlib_store b = [120; 1] ++ [1; Nlen b mod 256; Nlen b / 256; (65535 - Nlen b) mod 256; (65535 - Nlen b) / 256] ++ b
